@@ -5,7 +5,7 @@ VERIF = os.path.dirname(os.path.dirname(os.path.dirname(os.path.abspath(__file__
 DRIVER_DIR = os.path.join(VERIF, 'engine', 'mirdump')
 DRIVER = os.path.join(DRIVER_DIR, 'target', 'release', 'mirdump')
 CACHE = os.path.join(VERIF, '.cache')
-KEEP = 14
+KEEP = 40
 
 SELECTIONS = {
     # whole workspace, library with its optional feature (superset build): build script, lib, fst-bin, bench
@@ -86,11 +86,12 @@ def _prune():
     ents = []
     for e in os.listdir(CACHE):
         p = os.path.join(CACHE, e)
-        if os.path.isdir(p) and e.startswith('facts-'):
+        if os.path.isdir(p) and e.startswith('facts-') and not e.endswith('.part'):
             ents.append((os.path.getmtime(p), p))
     ents.sort(reverse=True)
-    for _, p in ents[KEEP:]:
-        shutil.rmtree(p, ignore_errors=True)
+    for mt, p in ents[KEEP:]:
+        if time.time() - mt > 1800:          # never pull a recent dump from under a concurrent check
+            shutil.rmtree(p, ignore_errors=True)
     for e in os.listdir(CACHE):
         p = os.path.join(CACHE, e)
         if os.path.isdir(p) and e.startswith('tmp-') and time.time() - os.path.getmtime(p) > 3600:
@@ -138,14 +139,20 @@ def facts_dir(repo='/repo', selection='ws'):
         d = os.path.join(CACHE, key)
         meta_p = os.path.join(d, 'meta.json')
         if os.path.exists(meta_p):
-            os.utime(d, None)
-            return d, json.load(open(meta_p))
+            m0 = json.load(open(meta_p))
+            if m0.get('ok'):
+                os.utime(d, None)
+                return d, m0
+            # a failed dump is never reused: the failure may have been transient (interrupted build)
         if os.path.isdir(d):
             shutil.rmtree(d)
         t0 = time.time()
         tmp = d + '.part'
         shutil.rmtree(tmp, ignore_errors=True)
         ok, log = run_driver(repo, SELECTIONS[selection], tmp)
+        if not ok and ('No such file or directory' in log or 'never executed' in log or 'signal' in log):
+            shutil.rmtree(tmp, ignore_errors=True)
+            ok, log = run_driver(repo, SELECTIONS[selection], tmp)       # one retry for environmental failures
         files = sorted(os.listdir(tmp)) if os.path.isdir(tmp) else []
         meta = {'ok': ok, 'selection': selection, 'tree_hash': th, 'files': files,
                 'wall_s': round(time.time() - t0, 2), 'log_tail': log[-4000:] if not ok else ''}
@@ -163,8 +170,11 @@ def fixture_dir(name='posctl'):
         d = os.path.join(CACHE, key)
         meta_p = os.path.join(d, 'meta.json')
         if os.path.exists(meta_p):
-            os.utime(d, None)
-            return d, json.load(open(meta_p))
+            m0 = json.load(open(meta_p))
+            if m0.get('ok'):
+                os.utime(d, None)
+                return d, m0
+            # a failed dump is never reused: the failure may have been transient (interrupted build)
         tmp = d + '.part'
         shutil.rmtree(tmp, ignore_errors=True)
         t0 = time.time()
